@@ -114,6 +114,12 @@ func checkC04(c *hx.Checker) {
 		{{257, 3}, {3, 259}}, {{4099}, {4099}}, {{1, 4099}, {4099, 3}}, {{7, 67, 5}, {5, 71}}, {{131, 129}, {129, 131}}} {
 		mm(ref.F32, sp[0], sp[1], "op", nil)
 	}
+	// three and four stack dimensions (operands of rank 5 and 6), outermost / innermost stack extents > 1, also
+	// against lower-rank and broadcast partners
+	for _, sp := range [][2][]int{{{2, 1, 2, 2, 3}, {2, 1, 2, 3, 2}}, {{2, 3, 2, 2, 3}, {2, 3, 2, 3, 2}}, {{3, 1, 2, 1, 2}, {3, 1, 2, 2, 3}}, {{2, 2, 2, 2, 3}, {3, 2}},
+		{{2, 2, 2, 2, 3}, {2, 3, 2}}, {{2, 3}, {2, 2, 2, 3, 2}}, {{2, 1, 2, 2, 3}, {1, 3, 1, 3, 2}}, {{2, 1, 3, 2, 2, 3}, {2, 1, 3, 2, 3, 1}}, {{1, 2, 1, 2, 2, 3}, {2, 3, 2}}} {
+		mm(ref.F32, sp[0], sp[1], "op", nil)
+	}
 	// extents up to 5 for plain and singly batched products (relations between extents: equal, multiples, square)
 	for _, mkn := range seqs([]int64{1, 2, 3, 4, 5}, 3, 3) {
 		m, k, n := int(mkn[0]), int(mkn[1]), int(mkn[2])
